@@ -211,6 +211,7 @@ struct runner : public booster::callable<void(cppcms::http::context::completion_
 			case 'p': { std::string b; gen_bytes(o.seed,o.n,b); std::ostream &os=resp().out(); for(size_t i=0;i<b.size();i++) os.put(b[i]); if(!os) add_note("badstream@"+std::to_string(pc-1)); } break;
 			case 'x': { resp().out().write(o.s1.data(),o.s1.size()); if(!resp().out()) add_note("badstream@"+std::to_string(pc-1)); } break;
 			case 'o': resp().out(); break;
+			case 'Z': resp().finalize(); break;   // explicit finalize (exploration only, never generated)
 			case 'f':
 				if(async) {
 					ctx->async_flush_output(ptr(this));
@@ -475,7 +476,7 @@ static bool parse_case(std::vector<std::string> const &w,case_t &c,std::string &
 		switch(op.k) {
 		case 'w': case 'p': { size_t d=a.find('.'); if(d==std::string::npos) { err="bad-op"; return false; } op.n=atol(a.substr(0,d).c_str()); op.seed=atol(a.substr(d+1).c_str()); } break;
 		case 'x': if(!vh::unhex(a,op.s1)) { err="bad-op"; return false; } break;
-		case 'f': case 'o': break;
+		case 'f': case 'o': case 'Z': break;
 		case 'b': op.n = (a=="-") ? -1 : atol(a.c_str()); break;
 		case 'F': case 'L': case 'S': op.n=atol(a.c_str()); break;
 		case 'h': case 'a': case 'k': { size_t d=a.find(':'); if(d==std::string::npos) { err="bad-op"; return false; } op.s1=a.substr(0,d); if(!vh::unhex(a.substr(d+1),op.s2)) { err="bad-op"; return false; } } break;
@@ -606,38 +607,63 @@ int main(int argc,char **argv)
 	std::string base=std::string(cwd)+"/c03_"+std::to_string(getpid());
 	g_scgi_path=base+"_s.sock"; g_fcgi_path=base+"_f.sock";
 	if(g_scgi_path.size()>100) { g_scgi_path="/tmp/c03_"+std::to_string(getpid())+"_s.sock"; g_fcgi_path="/tmp/c03_"+std::to_string(getpid())+"_f.sock"; }
-	g_http_port=free_port();
-	cppcms::json::value cfg;
-	cfg["service"]["list"][0]["api"]="scgi";    cfg["service"]["list"][0]["socket"]=g_scgi_path;
-	cfg["service"]["list"][1]["api"]="fastcgi"; cfg["service"]["list"][1]["socket"]=g_fcgi_path;
-	cfg["service"]["list"][2]["api"]="http";    cfg["service"]["list"][2]["ip"]="127.0.0.1"; cfg["service"]["list"][2]["port"]=g_http_port;
-	cfg["service"]["worker_threads"]=1;
-	cfg["service"]["disable_xpowered_by"]=true;
-	cfg["service"]["output_buffer_size"]=obuf;
-	cfg["service"]["async_output_buffer_size"]=abuf;
-	cfg["localization"]["disable_charset_in_content_type"]=true;
-	cfg["gzip"]["enable"]=true;
-	cfg["gzip"]["buffer"]=gzbuf;
-	cfg["cache"]["backend"]="thread_shared";
-	cfg["cache"]["limit"]=16;
-	cfg["http"]["timeout"]=30;
-	cfg["logging"]["level"]="error";
 	int rc=0;
-	try {
-		cppcms::service srv(cfg);
-		srv.applications_pool().mount(cppcms::create_pool<sync_app>(),cppcms::mount_point("/sync",0));
-		srv.applications_pool().mount(cppcms::create_pool<async_app>(),cppcms::mount_point("/async",0),cppcms::app::asynchronous);
-		std::string srv_err;
-		std::thread t([&]{ try { srv.run(); } catch(std::exception const &e) { srv_err=e.what(); std::lock_guard<std::mutex> g(g_mx); g_app_done=true; g_cv.notify_all(); } });
-		rc=vh::drive([&](std::vector<std::string> const &w)->std::string {
-			if(!srv_err.empty()) return "service-died "+srv_err;
-			return run_case(w);
-		});
-		srv.shutdown();
-		t.join();
-		if(!srv_err.empty()) { std::cerr<<"service exception: "<<srv_err<<std::endl; rc=3; }
+	// the HTTP acceptor needs a TCP port; other checks run concurrently, so retry when the port was taken meanwhile
+	for(int attempt=0;attempt<8;attempt++) {
+		g_http_port=free_port();
+		::unlink(g_scgi_path.c_str()); ::unlink(g_fcgi_path.c_str());
+		cppcms::json::value cfg;
+		cfg["service"]["list"][0]["api"]="scgi";    cfg["service"]["list"][0]["socket"]=g_scgi_path;
+		cfg["service"]["list"][1]["api"]="fastcgi"; cfg["service"]["list"][1]["socket"]=g_fcgi_path;
+		cfg["service"]["list"][2]["api"]="http";    cfg["service"]["list"][2]["ip"]="127.0.0.1"; cfg["service"]["list"][2]["port"]=g_http_port;
+		cfg["service"]["worker_threads"]=1;
+		cfg["service"]["disable_xpowered_by"]=true;
+		cfg["service"]["output_buffer_size"]=obuf;
+		cfg["service"]["async_output_buffer_size"]=abuf;
+		cfg["localization"]["disable_charset_in_content_type"]=true;
+		cfg["gzip"]["enable"]=true;
+		cfg["gzip"]["buffer"]=gzbuf;
+		cfg["cache"]["backend"]="thread_shared";
+		cfg["cache"]["limit"]=4096;
+		cfg["http"]["timeout"]=30;
+		cfg["logging"]["level"]="error";
+		bool retry=false;
+		try {
+			cppcms::service srv(cfg);
+			srv.applications_pool().mount(cppcms::create_pool<sync_app>(),cppcms::mount_point("/sync",0));
+			srv.applications_pool().mount(cppcms::create_pool<async_app>(),cppcms::mount_point("/async",0),cppcms::app::asynchronous);
+			std::string srv_err;
+			std::atomic<bool> srv_done(false);
+			std::thread t([&]{ try { srv.run(); } catch(std::exception const &e) { std::lock_guard<std::mutex> g(g_mx); srv_err=e.what(); g_app_done=true; g_cv.notify_all(); } srv_done.store(true); });
+			// readiness probe: the listening sockets exist once connect() succeeds
+			bool up=false;
+			for(int i=0;i<400 && !srv_done.load();i++) {
+				int fd=::socket(AF_INET,SOCK_STREAM,0);
+				struct sockaddr_in a; memset(&a,0,sizeof(a)); a.sin_family=AF_INET; a.sin_port=htons(g_http_port); a.sin_addr.s_addr=htonl(INADDR_LOOPBACK);
+				bool ok=::connect(fd,(struct sockaddr*)&a,sizeof(a))==0;
+				::close(fd);
+				if(ok) { up=true; break; }
+				usleep(5000);
+			}
+			if(!up) {
+				srv.shutdown(); t.join();
+				std::cerr<<"service did not come up (attempt "<<attempt<<"): "<<srv_err<<std::endl;
+				retry=true;
+			}
+			else {
+				rc=vh::drive([&](std::vector<std::string> const &w)->std::string {
+					{ std::lock_guard<std::mutex> g(g_mx); if(!srv_err.empty()) return "service-died "+srv_err; }
+					return run_case(w);
+				});
+				srv.shutdown();
+				t.join();
+				if(!srv_err.empty()) { std::cerr<<"service exception: "<<srv_err<<std::endl; rc=3; }
+			}
+		}
+		catch(std::exception const &e) { std::cerr<<"harness exception: "<<e.what()<<std::endl; rc=2; }
+		if(!retry) break;
+		rc=4;
 	}
-	catch(std::exception const &e) { std::cerr<<"harness exception: "<<e.what()<<std::endl; rc=2; }
 	::unlink(g_scgi_path.c_str()); ::unlink(g_fcgi_path.c_str());
 	std::ofstream st("c03_stats.json");
 	st<<"{\"writev_calls\":"<<tot_calls<<",\"short_writes_injected\":"<<tot_short<<",\"would_blocks_injected\":"<<tot_wb
